@@ -235,3 +235,19 @@ _rep("C15", "(5134 shapes:", "(more than 5000 shapes:")
 _rep("C15", "gzip wrappers)", "gzip wrappers, compressed pages that inflate to more than a page, more than 64 KiB, 16 MiB)")
 _rep("C15", "with an asset that fails at every request index", "with an asset that fails at every request index, with both end-of-data conventions of a host asset (error / read of 0 bytes)")
 _rep("C15", "memory <= 8 MiB + 3000 x input.", "memory <= 8 MiB + 3000 x input for the formats that wrap a compressed stream whose whole contents are needed (gzip, VTX) and <= 4 MiB + 8 x input for the others.")
+
+_rep("C05", "with Max-mode calls and breakpoint stops mixed in", "with Max-mode calls and breakpoint stops (every k instructions, k down to 1) mixed in")
+_rep("C06", "the first steps of every history probe", "host ROM pages arrive in one piece or in several; the first steps of every history probe")
+_rep("C07", "Floating-bus reads at chosen beam positions", "Floating-bus reads at chosen beam positions (normal and shadow screen, also reached by a write that locks the latch in the same go)")
+_rep("C08", "", "") if False else None
+_rep("C12", "and on the whole machine:", "with the fast loader taking blocks of an unstarted tape in between (fastblock), and on the whole machine:")
+_rep("C14", "SnapshotTrace requires:", "SnapshotTrace requires (besides the Q latch being clear unless the SZX says FSET):")
+_rep("C17", "A tenth of the steps start", "A third of the scans read with INI instead of IN A,(C). A tenth of the steps start")
+_rep("C20", "random logs, rates, player frequencies and buffer lengths", "random logs, layouts (mono, ABC..CBA), rates, player frequencies and buffer lengths")
+_rep("C08", "delivered by 16 paths", "delivered by 21 paths")
+_rep("C08", "and judges single bytes changed at beam time +-40 T", "judges the frame a mid-frame SZX load continues (cells after the file's own clock), frames after a screen bank flip in mid-picture, writes that must not reach the visible display file, and single bytes changed (by the CPU or by a host poke) at beam time +-40 T, long before and after the picture,")
+_rep("C09", "with and without an I/O extender on port 0x00FE)", "with and without an I/O extender on port 0x00FE, OUTs across the frame end, the byte written before a load repeated after it)")
+_rep("C10", "debugger stops inside the ROM routine)", "debugger stops inside the ROM routine, zero-length blocks)")
+_rep("C16", "(ROM boot with a tape and a key script;", "(ROM boot with a tape and a key script; a probe program reading AY, Kempston and keyboard ports; a jump to the fast-load trap that coincides with a frame end;")
+_rep("C18", "a repeated R13 write restarts the envelope.", "a repeated R13 write restarts the envelope, also when registers are selected with upper bits set.")
+_rep("C19", "SZX loads restoring speaker/MIC;", "SZX loads restoring speaker/MIC, idle loops of short and of 23-T instructions;")
